@@ -44,6 +44,7 @@ type ExpConfig struct {
 	RetryMaxMS     int64  `json:"retry_max_ms,omitempty"`
 	RetryElapsedMS int64  `json:"retry_elapsed_ms,omitempty"` // 0: never give up
 	NoTimeout      bool   `json:"no_timeout,omitempty"`
+	TimeoutMS      int    `json:"timeout_ms,omitempty"` // per-attempt timeout (timeout::timeout) in ms; 0 keeps the default (5 s)
 	// WaitForResult: sending_queue.wait_for_result (memory queue only): ConsumeX returns the export result.
 	WaitForResult bool `json:"wait_for_result,omitempty"`
 	// QueueDisabled: no sending queue and no batcher at all: ConsumeX is synchronous (obsreport, retry, timeout,
@@ -155,6 +156,8 @@ func (c ExpConfig) Options() ([]exporterhelper.Option, error) {
 	}
 	if c.NoTimeout {
 		opts = append(opts, exporterhelper.WithTimeout(exporterhelper.TimeoutConfig{}))
+	} else if c.TimeoutMS > 0 {
+		opts = append(opts, exporterhelper.WithTimeout(exporterhelper.TimeoutConfig{Timeout: time.Duration(c.TimeoutMS) * time.Millisecond}))
 	}
 	if c.Mutates {
 		opts = append(opts, exporterhelper.WithCapabilities(consumer.Capabilities{MutatesData: true}))
